@@ -1,1 +1,191 @@
 import Proofs.Lemmas.Compact
+
+/-!
+Helper lemmas for C13: the bin matrix of `collapse`.  Column `j` of the matrix, read from
+row 0 downwards and skipping unfilled slots, lists exactly the partner points of
+reference point `j` in pair order.
+-/
+
+namespace Compact
+
+/-! ## the slots of one column are filled consecutively from `current_row[j]` on -/
+
+theorem colEntries_cons (e : (Nat × Nat) × Row) (m : Mat) (j : Nat) :
+    colEntries (e :: m) j = if e.1.2 = j then (e.1.1, e.2) :: colEntries m j else colEntries m j := by
+  unfold colEntries
+  by_cases h : e.1.2 = j <;> simp [h]
+
+theorem colEntries_rowsGo (rf : List Nat) (cur rs : List Nat) (vals : List Row) (j : Nat)
+    (h : rowsGo rf cur = some rs) (hv : vals.length = rf.length) :
+    (colEntries ((rs.zip rf).zip vals) j).map Prod.fst = List.range' (cur[j]?.getD 0) (rf.count j) ∧
+    (colEntries ((rs.zip rf).zip vals) j).map Prod.snd =
+      ((rf.zip vals).filter (fun e => e.1 == j)).map Prod.snd := by
+  induction rf generalizing cur rs vals with
+  | nil =>
+    simp [rowsGo] at h; subst h
+    simp [colEntries]
+  | cons p ps ih =>
+    unfold rowsGo at h
+    cases hc : cur[p]? with
+    | none => simp [hc] at h
+    | some r =>
+      simp only [hc] at h
+      cases hr : rowsGo ps (cur.set p (r + 1)) with
+      | none => simp [hr] at h
+      | some rs' =>
+        simp only [hr, Option.map_some, Option.some.injEq] at h
+        subst h
+        cases vals with
+        | nil => simp at hv
+        | cons v vals' =>
+          have hv' : vals'.length = ps.length := by simpa using hv
+          obtain ⟨ih1, ih2⟩ := ih (cur.set p (r + 1)) rs' vals' hr hv'
+          simp only [List.zip_cons_cons, colEntries_cons]
+          have hp : p < cur.length := by
+            by_contra hc'
+            rw [List.getElem?_eq_none (by omega)] at hc
+            simp at hc
+          by_cases e : p = j
+          · subst e
+            simp only [if_true, List.map_cons, ih1, ih2, List.count_cons_self, List.filter_cons,
+              beq_self_eq_true]
+            refine ⟨?_, trivial⟩
+            rw [List.range'_succ, hc]
+            simp [hp]
+          · have e' : ¬ (p == j) = true := by simpa using e
+            simp only [e, if_false, ih1, ih2, List.filter_cons, e']
+            refine ⟨?_, by simp⟩
+            rw [List.count_cons_of_ne e]
+            simp [e]
+
+/-! ## reading a column whose rows are consecutive -/
+
+theorem lookupRow_of_ne (L : List (Nat × Row)) (s r : Nat) (h : L.map Prod.fst = List.range' s L.length)
+    (hr : r < s) : lookupRow L r = none := by
+  induction L generalizing s with
+  | nil => rfl
+  | cons e L ih =>
+    simp only [List.map_cons, List.length_cons, List.range'_succ, List.cons.injEq] at h
+    unfold lookupRow
+    have : ¬ e.1 = r := by omega
+    simp only [this, if_false]
+    exact ih (s + 1) h.2 (by omega)
+
+theorem filterMap_lookupRow (L : List (Nat × Row)) (s d : Nat)
+    (h : L.map Prod.fst = List.range' s L.length) :
+    (List.range' s (L.length + d)).filterMap (lookupRow L) = L.map Prod.snd := by
+  induction L generalizing s with
+  | nil =>
+    simp only [List.length_nil, Nat.zero_add, List.map_nil]
+    rw [List.filterMap_eq_nil_iff]
+    intro a _
+    rfl
+  | cons e L ih =>
+    simp only [List.map_cons, List.length_cons, List.range'_succ, List.cons.injEq] at h
+    obtain ⟨h1, h2⟩ := h
+    have hlen : (e :: L).length + d = (L.length + d) + 1 := by simp; omega
+    rw [hlen, List.range'_succ, List.filterMap_cons]
+    have h0 : lookupRow (e :: L) s = some e.2 := by
+      unfold lookupRow; simp [h1]
+    rw [h0]
+    simp only [List.map_cons, List.cons.injEq, true_and]
+    rw [← ih (s + 1) h2]
+    apply List.filterMap_congr
+    intro r hr
+    have hr' : s + 1 ≤ r := (List.mem_range'_1.mp hr).1
+    show lookupRow (e :: L) r = lookupRow L r
+    conv_lhs => unfold lookupRow
+    have : ¬ e.1 = r := by omega
+    simp [this]
+
+theorem le_foldl_max (l : List Nat) (a : Nat) : a ≤ l.foldl max a ∧ ∀ x ∈ l, x ≤ l.foldl max a := by
+  induction l generalizing a with
+  | nil => simp
+  | cons y ys ih =>
+    simp only [List.foldl_cons, List.mem_cons]
+    obtain ⟨h1, h2⟩ := ih (max a y)
+    refine ⟨by omega, ?_⟩
+    rintro x (rfl | hx)
+    · omega
+    · exact h2 x hx
+
+theorem colEntries_fst_subset (rs rf : List Nat) (vals : List Row) (j : Nat) :
+    ∀ r ∈ (colEntries ((rs.zip rf).zip vals) j).map Prod.fst, r ∈ rs := by
+  intro r hr
+  simp only [colEntries, List.map_map, List.mem_map, List.mem_filter, Function.comp] at hr
+  obtain ⟨e, ⟨he, _⟩, rfl⟩ := hr
+  have h1 := (List.of_mem_zip he).1
+  exact (List.of_mem_zip h1).1
+
+/-- column `j`, unfilled slots skipped = the partner values of `j` in pair order -/
+theorem column_filterMap (rf rs : List Nat) (vals : List Row) (j : Nat)
+    (h : rows rf = some rs) (hv : vals.length = rf.length) :
+    (column ((rs.zip rf).zip vals) (rs.foldl max 0 + 1) j).filterMap id =
+      ((rf.zip vals).filter (fun e => e.1 == j)).map Prod.snd := by
+  obtain ⟨h1, h2⟩ := colEntries_rowsGo rf _ rs vals j h hv
+  set L := colEntries ((rs.zip rf).zip vals) j with hL
+  have h1' : L.map Prod.fst = List.range' 0 L.length := by
+    have hlen : L.length = rf.count j := by
+      have := congrArg List.length h1
+      simpa using this
+    rw [h1, hlen]
+    congr 1
+    by_cases hj : j < rf.length <;> simp [hj]
+  -- the matrix has at least as many rows as the column has entries
+  have hrows : L.length ≤ rs.foldl max 0 + 1 := by
+    rcases Nat.eq_zero_or_pos L.length with h0 | hpos
+    · omega
+    · have hm : L.length - 1 ∈ L.map Prod.fst := by
+        rw [h1']; exact List.mem_range'_1.mpr ⟨by omega, by omega⟩
+      have := (le_foldl_max rs 0).2 _ (colEntries_fst_subset rs rf vals j _ hm)
+      omega
+  obtain ⟨d, hd⟩ := Nat.exists_eq_add_of_le hrows
+  unfold column
+  rw [List.filterMap_map, ← h2, hd, List.range_eq_range']
+  simpa using filterMap_lookupRow L 0 d h1'
+
+/-! ## channels and statistics -/
+
+theorem filterMap_cellChan (col : List (Option Row)) (ch : Nat) :
+    (col.map (cellChan ch)).filterMap id = ((col.filterMap id).map (chan ch)).filterMap id := by
+  induction col with
+  | nil => rfl
+  | cons x xs ih =>
+    cases x with
+    | none =>
+      have e1 : List.filterMap id (List.map (cellChan ch) (none :: xs)) =
+          List.filterMap id (List.map (cellChan ch) xs) := by
+        simp only [List.map_cons, List.filterMap_cons, cellChan, id]
+      have e2 : List.filterMap id ((none : Option Row) :: xs) = List.filterMap id xs := by simp
+      rw [e1, e2, ih]
+    | some r =>
+      have e1 : List.filterMap id (List.map (cellChan ch) (some r :: xs)) =
+          (chan ch r).toList ++ List.filterMap id (List.map (cellChan ch) xs) := by
+        cases h : chan ch r <;> simp [cellChan, h]
+      have e2 : List.filterMap id (List.map (chan ch) (List.filterMap id (some r :: xs))) =
+          (chan ch r).toList ++ List.filterMap id (List.map (chan ch) (List.filterMap id xs)) := by
+        cases h : chan ch r <;> simp [h]
+      rw [e1, e2, ih]
+
+theorem stat_congr {a b : List Val} (h : a.filterMap id = b.filterMap id) : stat a = stat b := by
+  unfold stat; simp only [h]
+
+theorem partners_eq (pairs : List (Nat × Nat)) (S : List Row) (vals : List Row) (j : Nat)
+    (h : gather S (pairs.map Prod.snd) = some vals) :
+    (((pairs.map Prod.fst).zip vals).filter (fun e => e.1 == j)).map Prod.snd =
+      (pairs.filter (fun p => p.1 == j)).filterMap (fun p => S[p.2]?) := by
+  induction pairs generalizing vals with
+  | nil => simp
+  | cons p ps ih =>
+    simp only [List.map_cons] at h
+    unfold gather at h
+    split at h
+    · rename_i v vs h1 h2
+      simp only [Option.some.injEq] at h; subst h
+      simp only [List.map_cons, List.zip_cons_cons, List.filter_cons]
+      by_cases e : (p.1 == j) = true
+      · simp only [e, if_true, List.map_cons, List.filterMap_cons, h1, ih vs h2]
+      · simp only [e, Bool.false_eq_true, if_false, ih vs h2]
+    · simp at h
+
+end Compact
